@@ -25,6 +25,8 @@ def plan(tier, seed):
         shards.append({'name': 'generate-%d' % i, 'fn': 'shard_generate', 'args': {'part': i}})
     shards.append({'name': 'naive', 'fn': 'shard_naive', 'args': {}})
     shards.append({'name': 'fresh-process', 'fn': 'shard_fresh', 'args': {}})
+    if tier == 'thorough':
+        shards.append({'name': 'scale', 'fn': 'shard_scale', 'args': {}, 'timeout': 3600})
     return shards
 
 
@@ -261,3 +263,37 @@ def shard_fresh(sh):
         sh.check('generator-task-csv', good and needle_ok, 'cli-data.csv-wrong-shape-or-label', lambda: {'header': lines[0][:80], 'rows': len(lines) - 1, 'first': lines[1][:120]})
     sh.check('fresh-process-reproducible', files[0] == files[1], 'cli-generator-not-reproducible', lambda: {'sha256': files})
     sh.case(('cli-generator', sh.seed), True, 'cli-data_generator', sample={'sha256': files[0]})
+
+
+def shard_scale(sh):
+    """Scale regimes (thorough): random domains drawn from bounds more than 10^7 wide; the generator task with more than 2^20 rows."""
+    import numpy as np
+    from outrank.algorithms.synthetic_data_generators.cc_generator import CategoricalClassification
+    from outrank.task_generators import outrank_task_generate_data_set
+    pipe.quiet()
+    kw = dict(n_features=2, n_samples=60, cardinality=5, random_values=True, low=0, high=12500000, ensure_rep=True, seed=7)
+    cc = CategoricalClassification()
+    ok, A = sh.call('seed-reproducible', 'generate_data', cc.generate_data, **kw)
+    import random as _r
+    _r.random()
+    ok2, B = sh.call('seed-reproducible', 'generate_data', CategoricalClassification().generate_data, **kw)
+    if ok and ok2:
+        sh.check('seed-reproducible', bool((A == B).all()), 'same-seed-different-data', lambda: {'kwargs': repr(kw), 'first': A[:3].tolist(), 'second': B[:3].tolist()})
+        sh.check('values-in-domain', A.min() >= 0 and A.max() <= 12500000 and all(len(set(A[:, j].tolist())) == 5 for j in range(2)), 'value-outside-declared-domain', lambda: {'min': int(A.min()), 'max': int(A.max())})
+        sh.case(('wide-bounds', 12500000), True, 'scale/wide-random-bounds', sample={'kwargs': repr(kw), 'first_row': A[0].tolist()})
+    n = (1 << 20) + 4096
+    name = 'syn-big'
+    args = pipe.make_args(generator_type='naive', num_synthetic_features=31, num_synthetic_rows=n, output_synthetic_df_name=name)
+    ok, _ = sh.call('generator-task-csv', 'outrank_task_generate_data_set', outrank_task_generate_data_set, args)
+    if ok:
+        bad, rows = 0, 0
+        with open(os.path.join(name, 'data.csv')) as f:
+            hdr = f.readline().strip().split(',')
+            for line in f:
+                p = line.rstrip('\n').split(',')
+                rows += 1
+                if p[30] != p[31] or len(p) != 32:
+                    bad += 1
+        sh.check('generator-task-csv', rows == n and bad == 0 and hdr == ['f%d' % i for i in range(31)] + ['label'], 'data.csv:label-not-a-function-of-the-needle-at-scale', lambda: {'rows': rows, 'rows_with_label!=needle': bad})
+        os.remove(os.path.join(name, 'data.csv'))
+        sh.case(('generator-task', n), True, 'scale/generator-task->2^20-rows', sample={'rows': rows})
